@@ -12,6 +12,7 @@ mod rng;
 mod runner;
 mod sched;
 mod shrink;
+mod tpool;
 
 const FROZEN_VECTORS: &str = include_str!("../vectors/frozen_vectors.json");
 
